@@ -2,6 +2,7 @@ package counts
 
 import (
 	"fmt"
+	"math/bits"
 )
 
 // Humanable is a quantity that can be made human-readable using
@@ -76,20 +77,35 @@ func (h *Humaner) FormatNumber(n uint64, unit string) (numeral string, unitStrin
 		return fmt.Sprintf("%d", n), unit
 	}
 
-	mantissa := float64(n) / float64(prefix.Multiplier)
-	var format string
+	// The number of decimal places to show, and the corresponding
+	// power of ten:
+	var decimals int
+	var scale uint64
 
 	switch {
 	case wholePart >= 100:
-		// `mantissa` can actually be up to 1023.999.
-		format = "%.0f"
+		// The mantissa can actually be up to 1023.999.
+		decimals, scale = 0, 1
 	case wholePart >= 10:
-		format = "%.1f"
+		decimals, scale = 1, 10
 	default:
-		format = "%.2f"
+		decimals, scale = 2, 100
 	}
 
-	return fmt.Sprintf(format, mantissa), prefix.Name + unit
+	// Compute `n * scale / prefix.Multiplier`, rounded to the nearest
+	// integer, using exact integer arithmetic. (A `float64` cannot
+	// represent values of 2^53 or more exactly, which could cause
+	// the result to be rounded in the wrong direction.)
+	hi, lo := bits.Mul64(n, scale)
+	scaled, remainder := bits.Div64(hi, lo, prefix.Multiplier)
+	if remainder >= prefix.Multiplier-remainder {
+		scaled++
+	}
+
+	if decimals == 0 {
+		return fmt.Sprintf("%d", scaled), prefix.Name + unit
+	}
+	return fmt.Sprintf("%d.%0*d", scaled/scale, decimals, scaled%scale), prefix.Name + unit
 }
 
 // Format formats values, aligned, in `len(unit) + 10` or fewer
